@@ -311,7 +311,13 @@ func execC15Timeout(c c15Case, r *oracle.Result) (*oracle.Result, string) {
 		return r, err.Error()
 	}
 	next := world.ExpandValue(c.NewLen, c.Seed+1)
-	serr := hasty.Set(c.Key, next)
+	buf := append([]byte(nil), next...)
+	serr := hasty.Set(c.Key, buf)
+	// Set has returned: the buffer is the caller's again (stored values are isolated from the
+	// caller's buffers) - reuse it at once, as a caller with a buffer pool would
+	for i := range buf {
+		buf[i] = 'Z'
+	}
 	r.Evals = 1
 	if serr != nil {
 		r.Label("set-timed-out")
